@@ -865,3 +865,47 @@ pub fn gen_state_skew(t: &mut Tape) -> Scenario {
     }
     sc
 }
+
+/// C16, targeted: timestamped sources -> (merge) -> block boundary -> reorder() -> collect_vec under
+/// every batch mode: the batcher in front of reorder must keep data and watermarks in order
+pub fn gen_reorder(t: &mut Tape) -> Scenario {
+    let mut g = Gen::new(t, timed_profile("reorder"));
+    let align = [1i64, 5, 50][g.t.draw(3) as usize];
+    let o = script_opts(g.t, align);
+    let repl = if g.t.draw(3) == 0 { Repl::One } else { Repl::Unlimited };
+    let mut s = gen_scripted_source(&mut g, &o, repl);
+    if g.t.draw(3) == 2 {
+        let o2 = script_opts(g.t, 5);
+        let s2 = gen_scripted_source(&mut g, &o2, Repl::Unlimited);
+        s = g.bin(s, s2, BinOp::Merge);
+    }
+    for _ in 0..g.t.draw(3) {
+        let op = match g.t.draw(4) {
+            0 => UnOp::Map(MapFn::Add(1)),
+            1 => UnOp::Shuffle,
+            2 => UnOp::Gb(GbForm::KeyedMap, AggFn::Sum),
+            _ => {
+                let bm = gen_bm(g.t, true);
+                UnOp::Batch(bm)
+            }
+        };
+        s = g.un(s, op);
+    }
+    let s = g.un(s, UnOp::Shuffle);
+    let s = g.un(s, UnOp::Reorder);
+    if g.t.draw(3) == 2 {
+        let s = g.un(s, UnOp::Shuffle);
+        g.un(s, UnOp::Reorder);
+    }
+    let mut sc = g.finish();
+    sc.bm = match sc.steps.len() % 3 {
+        0 => Bm::Fixed([2usize, 3, 5, 16][sc.sources.len() % 4 + (sc.steps.len() / 3) % 2]),
+        1 => gen_bm_of(sc.steps.len()),
+        _ => sc.bm,
+    };
+    sc
+}
+
+fn gen_bm_of(k: usize) -> Bm {
+    [Bm::Default, Bm::Single, Bm::Fixed(4), Bm::Adaptive(3, 1000), Bm::Adaptive(100, 5000)][k % 5]
+}
